@@ -101,7 +101,24 @@ def _variant(rng, name, e, two_d, base):
     return kw
 
 
-def _change_one(rng, name, e, two_d, kw):
+def _priority_options(name, e, two_d, kw):
+    out = []
+    for pn, v in kw.items():
+        if isinstance(v, list) and len(v) == 2 and all(isinstance(t, (int, float)) and not isinstance(t, bool) for t in v):
+            out.append(('axis', pn))
+        elif pn == 'method' and name in WRAPPED[two_d]:
+            out.append(('method', pn))
+    for pn in M.STR_VALUES:
+        if name in M.STR_VALUES[pn] and pn in e['params']:
+            out.append(('str', pn))
+    if two_d:
+        for pn in PAIRABLE:
+            if pn in e['params'] and pn not in kw and isinstance(e['params'][pn], (int, float)) and not isinstance(e['params'][pn], bool) and M.ALT_VALUES.get(pn):
+                out.append(('newpair', pn))
+    return out
+
+
+def _change_one(rng, name, e, two_d, kw, only=None):
     """the same call with exactly one argument changed (one axis of a pair; the wrapped method of an optimizer; one scalar)"""
     kw = copy.deepcopy(kw)
     opts = []
@@ -110,19 +127,34 @@ def _change_one(rng, name, e, two_d, kw):
             opts.append(('axis', pn))
         elif pn == 'method' and name in WRAPPED[two_d]:
             opts.append(('method', pn))
-        elif isinstance(v, (int, float)) and not isinstance(v, bool) and M.ALT_VALUES.get(pn):
+        elif isinstance(v, (int, float)) and not isinstance(v, bool) and (M.ALT_VALUES.get(pn) or M.derived_alts(pn, v)):
             opts.append(('scalar', pn))
+        elif isinstance(v, str) and pn in M.STR_VALUES and name in M.STR_VALUES[pn]:
+            opts.append(('str', pn))
+    for pn in M.STR_VALUES:
+        if name in M.STR_VALUES[pn] and pn in e['params'] and pn not in kw and isinstance(e['params'][pn], str):
+            kw[pn] = e['params'][pn]
+            opts.append(('str', pn))
     if two_d:
         for pn in PAIRABLE:
             if pn in e['params'] and pn not in kw and isinstance(e['params'][pn], (int, float)) and not isinstance(e['params'][pn], bool) and M.ALT_VALUES.get(pn):
                 opts.append(('newpair', pn))
     if not opts:
         return kw
-    pri = [o for o in opts if o[0] in ('axis', 'newpair', 'method')]
+    pri = [o for o in opts if o[0] in ('axis', 'newpair', 'method', 'str')]
     if pri and rng.random() < 0.65:
         opts = pri
     kind, pn = opts[int(rng.integers(0, len(opts)))]
+    if only is not None and only in opts + pri:
+        kind, pn = only
     alts = [a for a in M.ALT_VALUES.get(pn, []) if isinstance(a, (int, float))]
+    if kind == 'scalar' and not alts:
+        alts = M.derived_alts(pn, kw[pn])
+    if kind == 'str':
+        c = [a for a in M.STR_VALUES[pn][name] if a != kw[pn]]
+        if c:
+            kw[pn] = c[int(rng.integers(0, len(c)))]
+        return kw
     if kind == 'axis':
         ax = int(rng.integers(0, 2))
         c = [a for a in alts if a != kw[pn][ax]]
@@ -212,14 +244,18 @@ def systematic(rng, two_d, pool=None, what=('repeat',), max_pairs=None):
     names = [n for n in sorted(reg) if n not in SKIP and (pool is None or n in pool)]
     specs = []
 
-    def frame():
+    def frame(unsorted=False):
         if two_d:
             m, n = 10, 9
             x = np.round(np.sort(rng.uniform(-20, 30, m)) * 16) / 16 + np.arange(m) / 8
             z = np.round(np.sort(rng.uniform(0, 50, n)) * 16) / 16 + np.arange(n) / 8
+            if unsorted:
+                x, z = x[rng.permutation(m)], z[rng.permutation(n)]
             return {'two_d': True, 'mode': 'xz', 'x': x.tolist(), 'z': z.tolist(), 'shape': [m, n]}
         n = 40
         x = np.round(np.sort(rng.uniform(0, 100, n)) * 16) / 16 + np.arange(n) / 8
+        if unsorted:
+            x = x[rng.permutation(n)]
         return {'two_d': False, 'mode': 'x', 'x': x.tolist(), 'n': n}
 
     def step(name, kw, w):
@@ -234,7 +270,39 @@ def systematic(rng, two_d, pool=None, what=('repeat',), max_pairs=None):
             e = reg[name]
             kw = _jsonable(_variant(rng, name, e, two_d, M.filter_kwargs(e, M.call_kwargs(name, two_d))))
             w = ['shared', 'none'][int(rng.integers(0, 2))]
-            specs.append(dict(frame(), steps=[step(name, kw, w), step(name, kw, w), step(name, _change_one(rng, name, e, two_d, kw), w)]))
+            steps = [step(name, kw, w), step(name, kw, w)]
+            cur = kw
+            # then one further call per argument of the kinds that select cached state: each axis-pair, the wrapped method, each
+            # string-valued option — changed one at a time (at most four), and one change picked at random
+            for only in _priority_options(name, e, two_d, kw)[:4] + [('compensate', None), None]:
+                if only is not None and only[0] == 'str':
+                    # a string-valued option visits every one of its values in turn (left -> right differs from both -> right)
+                    for val in M.STR_VALUES[only[1]][name]:
+                        if cur.get(only[1], e['params'].get(only[1])) != val and len(steps) < 9:
+                            cur = dict(copy.deepcopy(cur), **{only[1]: val})
+                            steps.append(step(name, cur, w))
+                    continue
+                if only is not None and only[0] == 'compensate':
+                    # two integer arguments moved in opposite directions (+1 / -1): a cache key that folds several arguments into one
+                    # number (a sum, a size) cannot tell such calls apart
+                    ints = [pn for pn, d in e['params'].items() if isinstance(cur.get(pn, d), int) and not isinstance(cur.get(pn, d), bool)
+                            and pn not in ('max_iter', 'max_iter_2') and pn not in M.NO_DERIVED]
+                    if len(ints) < 2:
+                        continue
+                    i, j = (int(t) for t in rng.choice(len(ints), 2, replace=False))
+                    a, b = ints[i], ints[j]
+                    va, vb = cur.get(a, e['params'][a]), cur.get(b, e['params'][b])
+                    if vb - 1 < 1:
+                        a, b, va, vb = b, a, vb, va
+                    if vb - 1 < 1:
+                        continue
+                    cur = dict(copy.deepcopy(cur), **{a: va + 1, b: vb - 1})
+                    steps.append(step(name, cur, w))
+                    continue
+                cur = _change_one(rng, name, e, two_d, cur, only=only)
+                steps.append(step(name, cur, w))
+            # optimizers sort for themselves (skip_sorting): their histories run on unsorted x; the others on either
+            specs.append(dict(frame(unsorted=bool(e['cells'].get('skip_sorting')) or rng.random() < 0.35), steps=steps))
     if 'pairs' in what:
         by_mod = {}
         for name in names:
@@ -304,7 +372,7 @@ def _differs(name, ra, rb, shape):
     return None
 
 
-def run(spec, want=('fresh', 'mutated'), py_source=False, names=None):
+def run(spec, want=('fresh', 'mutated'), py_source=False, names=None, fresh_via='fitter'):
     """Executes the history. Returns a list of findings (step index, kind, text)."""
     from pybaselines import Baseline, Baseline2D
     two_d = spec['two_d']
@@ -371,7 +439,16 @@ def run(spec, want=('fresh', 'mutated'), py_source=False, names=None):
                     if _snap(v) != before[o]:
                         findings.append((k, 'mutated', f'{name} modified the caller\'s {o}'))
             if 'fresh' in want:
-                fresh = Baseline2D(x_eff.copy(), z_eff.copy()) if two_d else Baseline(x_eff.copy())
+                if fresh_via == 'function' and not two_d:
+                    import importlib
+                    fmod = importlib.import_module('pybaselines.' + M.registry(False)[name]['module'])
+
+                    class _F:       # the module-level function with x_data, behind the call interface of a fitter
+                        pass
+                    fresh = _F()
+                    setattr(fresh, name, lambda d, __f=getattr(fmod, name), **k2: __f(data=d, x_data=x_eff.copy(), **k2))
+                else:
+                    fresh = Baseline2D(x_eff.copy(), z_eff.copy()) if two_d else Baseline(x_eff.copy())
                 rb = _call(fresh, name, data_fresh, kw_fresh)
                 d = _differs(name, ra, rb, np.shape(data))
                 if d:
@@ -408,7 +485,7 @@ def describe(spec):
     return ' -> '.join(f'{s["method"]}({", ".join(f"{k}={v}" for k, v in s["kwargs"].items())}; data={s["data"]}, weights={s["weights"]})' for s in spec['steps'])
 
 
-def campaign(ctx, rng, kind, count_1d, count_2d, pool1=None, pool2=None, filt=None, py_source=False, sys_what=('repeat',), max_pairs=None):
+def campaign(ctx, rng, kind, count_1d, count_2d, pool1=None, pool2=None, filt=None, py_source=False, sys_what=('repeat',), max_pairs=None, fresh_via='fitter'):
     """runs histories and returns [(spec, finding)] of the wanted kind (shrunk). `filt(finding_text, step)` may restrict findings."""
     out = []
     names = set(K.kernel_table()) if py_source else None
@@ -426,7 +503,7 @@ def campaign(ctx, rng, kind, count_1d, count_2d, pool1=None, pool2=None, filt=No
             ctx.count('history:shared-weights-steps', sum(1 for s in spec['steps'] if s['weights'] == 'shared'))
             ctx.count('history:buffer-steps', sum(1 for s in spec['steps'] if s['data'] == 'buf'))
             try:
-                f = [x for x in run(spec, want=want, py_source=py_source, names=names) if x[1] == kind]
+                f = [x for x in run(spec, want=want, py_source=py_source, names=names, fresh_via=fresh_via) if x[1] == kind]
             except Exception:      # noqa: BLE001
                 import traceback
                 traceback.print_exc()
@@ -435,6 +512,6 @@ def campaign(ctx, rng, kind, count_1d, count_2d, pool1=None, pool2=None, filt=No
             if filt is not None:
                 f = [x for x in f if filt(spec, x)]
             if f:
-                s2, f2 = shrink(spec, kind, want=want, py_source=py_source, names=names)
+                s2, f2 = shrink(spec, kind, want=want, py_source=py_source, names=names, fresh_via=fresh_via)
                 out.append((s2, f2 or f[0]))
     return out
